@@ -81,8 +81,8 @@ def check_pair(arg):
 
 AG = {
     "ios": ["host 10.0.0.1", "10.0.0.0 255.255.255.0", "10.0.0.0 255.255.254.0", "10.0.1.0 255.255.255.252", "10.0.0.0 255.255.255.252", "10.0.0.0/24", "10.0.0.1/32",
-            "10.0.2.0 255.255.255.0", "128.0.0.0 128.0.0.0"],
-    "nxos": ["host 10.0.0.1", "10.0.0.0/24", "10.0.0.0/23", "10.0.1.0/30", "10.0.0.0/30", "10.0.0.0 0.0.0.255", "10.0.0.1/32", "10.0.2.0/24", "128.0.0.0/1"],
+            "10.0.2.0 255.255.255.0", "128.0.0.0 128.0.0.0", "0.0.0.0 128.0.0.0"],
+    "nxos": ["host 10.0.0.1", "10.0.0.0/24", "10.0.0.0/23", "10.0.1.0/30", "10.0.0.0/30", "10.0.0.0 0.0.0.255", "10.0.0.1/32", "10.0.2.0/24", "128.0.0.0/1", "0.0.0.0/0"],
 }
 
 
@@ -357,8 +357,8 @@ def main(chk):
          [(p, a, b) for p in ("ios", "nxos") for a in SPELL[p] for b in SPELL[p]],
          "all ordered pairs of 25 address spellings per platform (incl. wildcards with bit 31 free) (host / /32 / zero mask / prefix on ios / wildcard on nxos / base with host bits / non-contiguous)"),
         ("AddressAg in AddressAg, AddressAg in AddrGroup", check_member,
-         [(p, i, j, g) for p in ("ios", "nxos") for i in range(len(AG[p])) for j in range(len(AG[p])) for g in ((j,), (j, (j + 3) % 9), (1, 7))],
-         "all ordered pairs of 9 member spellings per platform x 3 group compositions"),
+         [(p, i, j, g) for p in ("ios", "nxos") for i in range(len(AG[p])) for j in range(len(AG[p])) for g in ((j,), (j, (j + 3) % len(AG[p])), (1, 7), (9, 3))],
+         "all ordered pairs of 10 member spellings per platform (incl. the whole address space on nxos, a /1 on ios) x 4 group compositions"),
         ("grouped addresses (same / different group names, any members): a positive answer implies containment", check_group_pair,
          [(p, na, ia, nb, ib) for p in ("ios", "nxos") for na in ("WEB", "DB") for nb in ("WEB", "DB") for ia in range(5) for ib in range(5)],
          "2 group names x 5 member lists on each side, both platforms"),
